@@ -917,6 +917,14 @@ type extrasRow struct {
 	Failed []int    `json:"failed"`
 }
 
+// writeSplit delivers a message in two pieces with a pause in between (two STREAM frames on the wire).
+func writeSplit(w io.Writer, msg []byte) {
+	cut := 1 + len(msg)/3
+	_, _ = w.Write(msg[:cut])
+	time.Sleep(30 * time.Millisecond)
+	_, _ = w.Write(msg[cut:])
+}
+
 // scripted peer on the dialing side (towards the real acceptExtraConns)
 func extrasDialPeer(ctx context.Context, conn transfer.Conn, kind, code string) {
 	s, err := conn.OpenStream(ctx)
@@ -926,7 +934,8 @@ func extrasDialPeer(ctx context.Context, conn transfer.Conn, kind, code string) 
 	ekm, _ := ekmOf(conn)
 	switch kind {
 	case "honest":
-		_, _ = s.Write(makeProof(code, ekm, roleSenderB, randNonce()))
+		// (in two pieces: how a message is cut into frames is the network's business)
+		writeSplit(s, makeProof(code, ekm, roleSenderB, randNonce()))
 	case "wrongcode":
 		_, _ = s.Write(makeProof(authCodes["guess"], ekm, roleSenderB, randNonce()))
 	case "garbage":
@@ -961,7 +970,7 @@ func extrasListenPeer(ctx context.Context, conn transfer.Conn, kind, code string
 	ekm, _ := ekmOf(conn)
 	switch kind {
 	case "honest":
-		_, _ = s.Write(makeProof(code, ekm, roleRecvB, randNonce()))
+		writeSplit(s, makeProof(code, ekm, roleRecvB, randNonce()))
 	case "wrongcode":
 		_, _ = s.Write(makeProof(authCodes["guess"], ekm, roleRecvB, randNonce()))
 	case "garbage":
@@ -1345,7 +1354,22 @@ func AuthExtras(args []string) {
 					same = false
 				}
 			}
-			if !same {
+			missingHonest := false
+			for c := range want {
+				found := false
+				for _, id := range got {
+					if id == c {
+						found = true
+					}
+				}
+				if !found && row.Kinds[c-1] == "honest" {
+					missingHonest = true
+				}
+			}
+			if missingHonest {
+				// the "if" half: a peer with the code on the same TLS session is accepted
+				res.AddViolation(map[string]any{"kind": "honest_peer_with_the_code_rejected", "side": row.Side}, replay)
+			} else if !same {
 				res.AddDrift(replay)
 			}
 		}
